@@ -70,6 +70,9 @@ var c15Exprs = []c15Expr{
 	{"prefixed-wildcard-step", true, func(p string) string { return "../" + p + "*/" + p + "name = 'a'" }, nil},
 	// leafref only: RFC 6020 path-arg shapes around the key predicate
 	{"leafref-key-predicate", true, nil, func(p string) string { return "/" + p + "tgt[" + p + "name = current()/../" + p + "name]/" + p + "name" }},
+	// only the key name of the predicate carries the prefix (the steps are unprefixed): it is resolved like any other
+	{"leafref-key-name-alone-prefixed", true, nil, func(p string) string { return "/tgt[" + p + "name = current()/../name]/name" }},
+	{"leafref-key-operand-alone-prefixed", true, nil, func(p string) string { return "/tgt[name = current()/../" + p + "name]/name" }},
 	{"leafref-keyexpr-without-up-step", false, nil, func(p string) string { return "/" + p + "tgt[" + p + "name = current()/" + p + "name]/" + p + "name" }},
 	{"leafref-keyexpr-without-current", false, nil, func(p string) string { return "/" + p + "tgt[" + p + "name = ../" + p + "name]/" + p + "name" }},
 	{"leafref-relative-path-ending-in-predicate", false, nil, func(p string) string { return "../" + p + "tgt[" + p + "name = current()/../" + p + "name]" }},
